@@ -145,13 +145,6 @@ def main():
             shards.append((t, WORDCLS, 1, 4 if quick else 5, (a,), [b'val'], dl))
     engine.phase(ck, 'unquoted words', shard_product, shards, alphabet=len(WORDCLS))
     engine.phase(ck, 'literals <= 3 next to comments', shard_comments, [(a, dl) for a in CLASSES])
-    # bound 2: length 4, dq and sq, all four environments
-    shards = []
-    for t in ('dq', 'sq'):
-        for a in CLASSES:
-            for b in CLASSES:
-                shards.append((t, CLASSES, 4, 4, (a, b), ENVS, dl))
-    engine.phase(ck, 'quoted bodies == 4', shard_product, shards, templates=2, environments=4, alphabet=len(CLASSES))
     # substitution forms as single symbols, mixed with the characters they interact with
     ENVSYM = [b'${V}', b'${V:-d}', b'${U:-d}', b'${U}', b'${V:-}', b'${V:-a b}', b'${U:-${V}}', b'a', b'\\', b'$', b'{', b'}', b' ', b'"', b"'"]
     shards = []
@@ -160,6 +153,13 @@ def main():
             shards.append((t, ENVSYM, 1, 3, (a,), ENVS, dl))
     engine.phase(ck, 'substitution forms ${V} ${V:-d} ${U:-d} ... as symbols, sequences <= 3, 5 templates, 4 environments', shard_product, shards,
                  alphabet=len(ENVSYM))
+    # bound 2: length 4, dq and sq, all four environments
+    shards = []
+    for t in ('dq', 'sq'):
+        for a in CLASSES:
+            for b in CLASSES:
+                shards.append((t, CLASSES, 4, 4, (a, b), ENVS, dl))
+    engine.phase(ck, 'quoted bodies == 4', shard_product, shards, templates=2, environments=4, alphabet=len(CLASSES))
     if not quick:
         shards = []
         for a in CLASSES:
